@@ -13,7 +13,9 @@ A case is one history:
              | "P1"|"P2" (directory BESIDE the first / second stack, whose path begins with the characters of the
                stack's own path: <stack>-extras/..., <stack>_b/...),
         "tb": None (default table) | "alt" (other path, other text) | "same" (other path, same text as the default
-              table of that directory) | "fix" (a path that does not depend on the directory) | "none" (tablefile
+              table of that directory) | "fix" (a path that does not depend on the directory) | "sib" / "sib2" (a
+              table file in a directory BESIDE the product directory whose path begins with the characters of the
+              product directory's own path: <dir>0/ups/<n>.table, <dir>-tables/<n>.table) | "none" (tablefile
               none) | "stream" (an open file with text variant "tx": interned),
         "L": None | [[source variant, path below the extra directory], ...] (external files), "t": None|tag}
        "A" assignTag(t, n, v)   "U" unassignTag(t, n, v|None)   "X" undeclare(n, v|None)
@@ -83,9 +85,16 @@ def dvar_of(path):
     return path.rsplit("-", 1)[1]
 
 
+# table files beside the product directory: its path plus characters other than a slash, then the rest
+SIBTABLE = {"sib": "0/ups/%s.table", "sib2": "-tables/%s.table"}
+TABLE_IN_DIR = (None, "alt", "same", "sib", "sib2")       # table paths that are made from the product directory
+
+
 def ctable(n, v, d, tb):
     if tb == "fix":
         return "/prod/tables/%s-%s.table" % (n, v)
+    if tb in SIBTABLE:
+        return cdir(n, v, d) + SIBTABLE[tb] % n
     return cdir(n, v, d) + "/ups/" + ({"alt": "alt.table", "same": "same.table"}.get(tb) or n + ".table")
 
 
@@ -107,7 +116,7 @@ def table_request(o):
         return "s", STREAMS[o.get("tx") or "t1"]
     if tb == "fix":
         return "p", ctable(o["n"], o["v"], None, "fix")
-    if tb in ("alt", "same") and o["d"]:
+    if tb in ("alt", "same", "sib", "sib2") and o["d"]:
         return "p", ctable(o["n"], o["v"], o["d"], tb)
     return "d", None
 
@@ -119,7 +128,7 @@ def static_texts(case):
         if o["k"] != "D":
             continue
         for d in DIRVARS_ALL:
-            for tb in (None, "alt", "same"):
+            for tb in TABLE_IN_DIR:
                 out[ctable(o["n"], o["v"], d, tb)] = ctext(o["n"], o["v"], d, tb)
         out[ctable(o["n"], o["v"], None, "fix")] = ctext(o["n"], o["v"], None, "fix")
     for x, t in EXTRAS.items():
@@ -146,6 +155,7 @@ def gen_history(rng, length, flavors=None, mode=None, bias=None, ro=None, fam="r
     bias = bias or {}
     p_tb, p_home, p_L = bias.get("tb", 0.10), bias.get("home", 0.08), bias.get("L", 0.04)
     p_sib, p_unk = bias.get("sib", 0.05), bias.get("unk", 0.04)
+    p_tplace = bias.get("tplace", 0.0)
     use_stacks({"stacks": stacks})
     S1, S2 = CUR
     decls, tags = {}, {}
@@ -179,6 +189,8 @@ def gen_history(rng, length, flavors=None, mode=None, bias=None, ro=None, fam="r
                 o["tb"] = rng.choice(["same", "fix", "none", "stream", "stream"])
                 if o["tb"] == "stream":
                     o["tx"] = rng.choice(["t1", "t1", "t2", "t3"])
+            if o["d"] and p_tplace and rng.random() < p_tplace:
+                o["tb"] = rng.choice(["sib", "sib2", "sib", "alt", "fix"])     # an explicit absolute table file
             if rng.random() < p_L:
                 o["L"] = [[rng.choice(["x1", "x2"]), rng.choice(["etc/x.txt", "doc/y.txt"])]]
         elif r < 0.53:
@@ -428,6 +440,33 @@ def gen_prefix_dirs(rng):
     return out
 
 
+def gen_table_places(rng):
+    """an explicit absolute table file (-M) as data: inside the product directory, in a directory beside it whose path
+    begins with the characters of the product directory's path (two spellings), unrelated to it; the product directory
+    outside the stacks, inside one, beside one; -Z or not; the other flavor in the same version file with another of
+    these table files; the same request again (no difference), then a forced change to the next kind of place"""
+    out = []
+    i = 0
+    places = ["alt", "sib", "sib2", "fix"]
+    for d in ("A", "B", "H1", "H2", "P1"):
+        for j, tb in enumerate(places):
+            i += 1
+            f1, f2 = rng.choice(FLAVOR_PAIRS)
+            n, v = NAMES[i % 3], VERSIONS[i % 2]
+            s = [None, "s1", "s2"][i % 3]
+            nxt, oth = places[(j + 1) % 4], places[(j + 2) % 4]
+            ops = [_D(f1, n, v, s=s, d=d, tb=tb, t=[None, "stable"][i % 2]),
+                   _D(f2, n, v, s=s, d=d, tb=oth),                     # the other flavor shares the version file
+                   _D(f1, n, v, s=s, d=d, tb=tb),                      # the same again: no difference
+                   _D(f1, n, VERSIONS[2], s=s, d=d, tb=nxt),           # another version of the product
+                   _D(f1, n, v, s=s, d=d, tb=nxt, F=True),             # forced: the new table file is found
+                   _op("X", f2, n, v, s=s)]
+            out.append({"flavors": [f1, f2], "mode": MODES[i % 3], "ops": ops,
+                        "fam": "table-place/dir=%s/table=%s/Z=%s" % (
+                            {"A": "out", "B": "out", "P": "beside-stack", "H": "in-stack"}[d[0]] , tb, s or "-")})
+    return out
+
+
 def gen_unknown_tags(rng):
     """a command naming a tag that is not recognised, for every command that takes a tag and every state it can meet
     (new product, new version, new flavor of a declared version, declared version; table from a stream, external
@@ -598,9 +637,13 @@ def ensure_products(root):
                         os.makedirs(p, exist_ok=True)
                     except OSError:
                         continue                                   # inside a read-only stack: made before the chmod
-                for tb in (None, "alt", "same"):
+                for tb in TABLE_IN_DIR:
                     t = root + ctable(n, v, d, tb)
                     if not os.path.exists(t):
+                        try:
+                            os.makedirs(os.path.dirname(t), exist_ok=True)
+                        except OSError:
+                            continue
                         with open(t, "w") as fd:
                             fd.write(ctext(n, v, d, tb))           # distinct text per path, same.table = default table
             t = root + ctable(n, v, None, "fix")
@@ -1244,7 +1287,9 @@ def configure(ctx):
                 "path with the same text / table path and text / table file none / text of an interned table / external "
                 "files, for every prior way of naming the table file; the same version under two flavors with a tag on "
                 "one, the other or both, then tag removal / undeclare / remove under either flavor; choice of the "
-                "target stack (-Z, product directory inside a stack, read-only stacks).  Then "
+                "target stack (-Z, product directory inside a stack, read-only stacks); explicit absolute table "
+                "files inside the product directory / in a directory beside it whose path begins with the product "
+                "directory's path / unrelated to it, for product directories outside, inside and beside a stack.  Then "
                 "random histories of declare (new / same / conflicting / directory taken from the existing "
                 "declaration; with and without tag, force, noaction), assignTag, unassignTag, undeclare, "
                 "undeclare --tag (with and without the version), remove over 3 products x 3 versions x 2 flavors "
@@ -1261,7 +1306,8 @@ def configure(ctx):
         "global tags only (current, stable, beta); no user tags, no tag:<name> pseudo-versions",
         "product directories exist, outside the stacks or inside one of them (never <stack>/<flavor>/<product>/<version>, "
         "so a missing productDir is never inferred from the path); table files exist; their texts differ iff their "
-        "paths do, except same.table, which repeats the text of the default table of its directory",
+        "paths do, except same.table, which repeats the text of the default table of its directory; a table file given "
+        "by path lies in <dir>/ups, in <dir>0/ups or <dir>-tables (beside the product directory), or in /prod/tables",
         "tables given as a stream and external files (-L) are small texts; the copies below ups_db are read back by "
         "the fresh reader and compared with Model/DbExt.v as a third map",
         "read-only stacks (directory and ups_db mode 0555, history run under uid nobody) are read-only from the start "
@@ -1279,7 +1325,7 @@ def run(ctx):
         process(ctx, evaluate(ctx, corp))
         # directed families: the same shapes on every seed (the seed picks flavors, not shapes)
         directed = gen_forced_redeclarations(ctx.rng) + gen_two_flavor_tags(ctx.rng) + gen_stack_choice(ctx.rng)
-        directed += gen_prefix_dirs(ctx.rng) + gen_unknown_tags(ctx.rng)
+        directed += gen_prefix_dirs(ctx.rng) + gen_unknown_tags(ctx.rng) + gen_table_places(ctx.rng)
         process(ctx, evaluate(ctx, directed))
         nh = ctx.size(420, 3000)
         lo, hi = 5, ctx.size(25, 60)
@@ -1299,6 +1345,10 @@ def run(ctx):
         # commands naming tags that are not recognised
         cases += [gen_history(rng, rng.randint(4, 12), bias={"unk": 0.3, "tb": 0.2, "L": 0.1}, fam="rand-unknown-tag")
                   for _ in range(ctx.size(40, 300))]
+        # explicit absolute table files inside / beside (sharing its path as a prefix) / away from the product
+        # directory, which itself lies outside, inside or beside a stack
+        cases += [gen_history(rng, rng.randint(4, 12), bias={"tplace": 0.6, "home": 0.25, "sib": 0.1},
+                              fam="rand-table-place") for _ in range(ctx.size(20, 300))]
         for c in cases[:2]:
             ctx.sample(c)
         for k in range(0, len(cases), 400):
